@@ -46,6 +46,7 @@ const (
 	KMapSS       Kind = "map[string]string"
 	KMapSI       Kind = "map[string]int"
 	KMapIS       Kind = "map[int]string"
+	KValid       Kind = "Valid" // string type that validates separate-token arguments itself (ValueValidator)
 	KUpper       Kind = "Upper"
 	KUpperSlice  Kind = "[]Upper"
 	KComp        Kind = "Comp"
@@ -63,6 +64,19 @@ const (
 // (the empty text denotes the zero value, so that marshalling is the inverse of
 // unmarshalling on every reachable value); text containing "!bad" denotes nothing.
 type Upper string
+
+// Valid decides itself which separate-token arguments it takes (ValueValidator):
+// anything not starting with a dash, and option-looking tokens starting "-ok".
+type Valid string
+
+func ValidAccepts(s string) bool { return !strings.HasPrefix(s, "-") || strings.HasPrefix(s, "-ok") }
+
+func (v *Valid) IsValidValue(s string) error {
+	if !ValidAccepts(s) {
+		return fmt.Errorf("valid: %q looks like an option", s)
+	}
+	return nil
+}
 
 func (u *Upper) UnmarshalFlag(v string) error {
 	if strings.Contains(v, "!bad") {
@@ -156,6 +170,7 @@ var kindTypes = map[Kind]reflect.Type{
 	KMapSS:       reflect.TypeOf(map[string]string(nil)),
 	KMapSI:       reflect.TypeOf(map[string]int(nil)),
 	KMapIS:       reflect.TypeOf(map[int]string(nil)),
+	KValid:       reflect.TypeOf(Valid("")),
 	KUpper:       reflect.TypeOf(Upper("")),
 	KUpperSlice:  reflect.TypeOf([]Upper(nil)),
 	KComp:        reflect.TypeOf(Comp("")),
